@@ -13,7 +13,8 @@ Clauses
   envelope   |J - exact|_ej <= tol[method|1|k-bucket] * S_1(e, j) + floor,
              floor = 64 eps (|exact| + (n+2) (cond + noise_e / h_f) + 2 M_e(h_f) / h_f)   (h_f = reported final_step,
              clamped into the generated range; the 1/h_f terms only for difference-forming rules)
-             (C01 table, overridden per key by constants.json:C03_tol; missing key = weak cell)
+             (constants.json: C03_tol['method|1|k-bucket|default-order2, default-order4 or user'], else C03_tol / C01_tol
+             ['method|1|k-bucket']; missing key or null = weak cell)
   grad-row   Gradient(f)(x) == squeeze(Jacobian(f)(x.ravel())) (same configuration), bitwise
   direction  |directionaldiff - grad.v/|v|| <= K_DIR (est_dir + sum_j |v_j| est_j / |v|) + floor, asserted when
              both configurations leave >= 2 derivative estimates and reach <= rho_cert/4 (single-estimate error
@@ -175,7 +176,8 @@ class C03(Prop):
         affine = mv.is_affine(case['prog'])
         diff_forming = difference_forming(method, d.order)
         bucket = mv.kbucket(k_est)
-        tol = self.table.get('%s|1|%s' % (method, bucket))
+        cfg = 'default-order%d' % order if case['step']['kind'] == 'default' else 'user'
+        tol = self.table.get('%s|1|%s|%s' % (method, bucket, cfg), self.table.get('%s|1|%s' % (method, bucket)))
         hs = np.array([np.ravel(s) for s in steps])            # steps x n
         hmin, hmax = hs.min(axis=0), hs.max(axis=0)
         bounds = np.full(exact.shape, np.inf)
@@ -229,7 +231,7 @@ class C03(Prop):
                         floor += FLOOR * EPS * 2.0 * Mf / hf
                 excess = max(err - floor, 0.0)
                 ratio = excess / S if S > 0 else (0.0 if excess == 0 else math.inf)
-                ctx.track('err/S|%s|1|%s' % (method, bucket), ratio,
+                ctx.track('err/S|%s|1|%s|%s' % (method, bucket, cfg), ratio,
                           dict(prog=mv.describe(case['prog']), x=case['x'], e=e, j=j, order=order,
                                step=case['step'], lib=lib[e, j], exact=exact[e, j], S=S))
                 if tol is None or CALIBRATE:
@@ -241,7 +243,7 @@ class C03(Prop):
                                                               floor, method, order),
                                     e=e, j=j, ratio=ratio, bucket=bucket)
         if not affine and tol is None:
-            ctx.count('weak cell (no envelope): %s|1|%s' % (method, bucket))
+            ctx.count('weak cell (no envelope): %s|1|%s|%s' % (method, bucket, cfg))
         with np.errstate(invalid='ignore'):
             sensitive = bool(np.any(bounds <= np.abs(exact) / 2))
         return sensitive, bounds
